@@ -1447,6 +1447,44 @@ def _m_to_be_bytes(eng, st, callee, args, ev):
     return _m_to_le_bytes(eng, st, callee, args, ev, be=True)
 
 
+def _bytes_source(arr):
+    """(order, x, ty) when the array value is exactly x.to_le_bytes() / x.to_be_bytes() for an integer term x"""
+    if not (arr[0] == "agg" and arr[1] == "array" and arr[5]):
+        return None
+    n = len(arr[5])
+    if n == 1:
+        return "le", arr[5][0], "u8"
+    for order in ("le", "be"):
+        els = arr[5] if order == "le" else tuple(reversed(arr[5]))
+        e0 = els[0]
+        if not (e0[0] == "cast" and e0[1] == "IntToInt" and e0[-1] == "u8"):
+            continue
+        x, ty = e0[2], e0[3]
+        if ty not in INT_BITS or INT_BITS[ty] != 8 * n:
+            continue
+        if all(els[k] == mk_cast("IntToInt", mk_bin("Shr", x, C(8 * k, "u32"), ty), ty, "u8") for k in range(1, n)):
+            return order, x, ty
+    return None
+
+
+def _m_array_eq(eng, st, callee, args, ev):
+    """`x.to_le_bytes() == bytes` on [u8; N] is `x == uN::from_le_bytes(bytes)` (the two are inverse bijections): comparing in the wire
+    representation or as integers is the same test"""
+    sty = (callee.get("args") or [""])[0]
+    if len(args) != 2 or not re.match(r"^\[u8; \d+\]$", sty or ""):
+        return NotImplemented
+    vals = []
+    for a in args:
+        vals.append(eng.read(st, a[1]) if a[0] == "ref" else a)
+    for i in (0, 1):
+        src = _bytes_source(vals[i])
+        if src is not None:
+            order, x, ty = src
+            res = mk_bin("Eq", x, ("from_bytes", order, ty, vals[1 - i]), "bool")
+            return mk_un("Not", res, "bool") if callee.get("name") == "ne" else res
+    return NotImplemented
+
+
 def _m_from_le_bytes(eng, st, callee, args, ev, be=False):
     ty = _int_self(callee)
     if ty is None:
@@ -2281,7 +2319,7 @@ def _deref_val(eng, st, t):
 def _m_opt_eq(eng, st, callee, args, ev, negate=False):
     st_ty = callee.get("self_ty") or ""
     if not st_ty.startswith(("core::option::Option<", "std::option::Option<")):
-        return NotImplemented
+        return _m_array_eq(eng, st, callee, args, ev)
     a = _deref_val(eng, st, args[0])
     b = _deref_val(eng, st, args[1])
     if a is None or b is None:
